@@ -305,7 +305,14 @@ class C14(Prop):
                             if d != obj or type(d) is not cls or cnt != len(exp) or r.tell() != len(exp):
                                 bad("decode(encode(x)) is not (x, len)", [cls.__name__, repr(combo), bo, ps], observed=[repr(d), cnt, r.tell()])
                             if base is cfi.Instruction:
-                                dname, operands, _ = obj.gtirb_encoding(bo, ps)
+                                try:
+                                    dname, operands, _ = obj.gtirb_encoding(bo, ps)
+                                    redo = None if dname == ".cfi_escape" else [c for c in classes(cfi.Instruction) if c._directive == dname]
+                                    redo = None if redo is None or len(redo) != 1 else bytes(redo[0](*operands).encode(bo, ps))
+                                except Exception as e:  # noqa
+                                    bad("the directive form of an instruction that encodes cannot be built / re-encoded", [cls.__name__, repr(combo), bo, ps],
+                                        observed=type(e).__name__ + ": " + str(e)[:120])
+                                    continue
                                 if dname == ".cfi_escape":
                                     if bytes(operands) != exp:
                                         bad(".cfi_escape operands are not the encoding", [cls.__name__, repr(combo), bo, ps])
